@@ -11,7 +11,8 @@ META = dict(
          "ClientTls also built reconnectable=True; the direct and after-transfer entries again with ioflo's console at profuse verbosity and payloads that are not UTF-8); every "
          "errno is also returned (and raised) by connect_ex for both client classes, raised by do_handshake for both TLS "
          "classes, and raised by sendto/recvfrom under a real UdpStack + SocketUdpNb, with console verbosity {0, profuse} x payload {ASCII, not "
-         "valid UTF-8}. Oracle = the statement's table: "
+         "valid UTF-8}, and for sendto through serviceTxPkts and serviceTxPktsOnce with queues of 2-3 packets to the same / "
+         "different destinations. Oracle = the statement's table: "
          "loss set (ECONNRESET, ENETRESET, ENETUNREACH, EHOSTUNREACH, ENETDOWN, EHOSTDOWN, ETIMEDOUT, ECONNREFUSED, TLS EOF) "
          "=> cutoff set, 0 / b'' returned, nothing raised; would-block => nothing raised and connection state unchanged; "
          "anything else => the same exception propagates; datagram stack: a loss-set errno on send keeps the packet for a "
@@ -343,7 +344,10 @@ def handshake_case(kind, fault, p):
                          raised=repr(raised)))
 
 
-def udp_case(op, e, p, loud=False, binary=False):
+UDP_LAYOUTS = ("AA", "AB", "AAB", "ABA")     # destinations of the queued packets, in queue order
+
+
+def udp_case(op, e, p, loud=False, binary=False, entry="all", layout="AA"):
     set_loud(loud)
     p1, p2, d1, d2 = (b"\xff\xfe", b"\xfe\xff", b"\xffd", b"\xfed") if binary else (b"p1", b"p2", b"d1", b"d2")
     fn = net.FakeNet()
@@ -355,28 +359,34 @@ def udp_case(op, e, p, loud=False, binary=False):
     name = errno.errorcode[e]
     transient = e in LOSS
     p.evaluations += 1
-    p.nontrivial("udp|%s|%d|%d|%d" % (op, e, loud, binary))
+    p.nontrivial("udp|%s|%d|%d|%d|%s|%s" % (op, e, loud, binary, entry, layout))
     raised = None
     if op == "sendto":
-        pkts = [M["packeting"].Packet(stack=stk, packed=p1), M["packeting"].Packet(stack=stk, packed=p2)]
-        for pk in pkts:
-            stk.transmit(pk, ha=(net.LOOP, 9001))
+        # the queued packets go to destination A (9001) or B (9002) as the layout says; the first sendto faults
+        other2 = fn.socket(type=net._socket.SOCK_DGRAM)
+        other2.bind((net.LOOP, 9002))
+        dests = dict(A=(net.LOOP, 9001), B=(net.LOOP, 9002))
+        payload = [p1, p2, p1 + p2][:len(layout)]
+        want = dict(A=[], B=[])
+        for pay, d in zip(payload, layout):
+            stk.transmit(M["packeting"].Packet(stack=stk, packed=pay), ha=dests[d])
+            want[d].append(pay)
+        service = stk.serviceTxPkts if entry == "all" else stk.serviceTxPktsOnce
         ss.force("sendto", net.ERR(e))
         try:
-            stk.serviceTxPkts()
+            service()
         except Exception as ex:
             raised = ex
-        got1 = list(d for d, s in other.dinbox)
         if raised is None:
             try:
-                stk.serviceTxPkts()
-                stk.serviceTxPkts()
+                for _ in range(2 if entry == "all" else 2 * len(layout) + 2):
+                    service()
             except Exception as ex:
                 raised = ex
-        got2 = list(d for d, s in other.dinbox)
+        got2 = dict(A=[d for d, s_ in other.dinbox], B=[d for d, s_ in other2.dinbox])
         if raised is not None:
             got = "raised" if (isinstance(raised, OSError) and raised.args[0] == e) else "raised-other(%s)" % type(raised).__name__
-        elif sorted(got2) == sorted([p1, p2]) and len(stk.txPkts) == 0:
+        elif sorted(got2["A"]) == sorted(want["A"]) and sorted(got2["B"]) == sorted(want["B"]) and len(stk.txPkts) == 0:
             got = "retried"
         else:
             got = "lost-or-repeated %r" % (got2,)
@@ -398,10 +408,13 @@ def udp_case(op, e, p, loud=False, binary=False):
             got = "lost-or-repeated %r" % (rx,)
     p.outcome("udp %s %s %s" % (op, "transient" if transient else "other", got.split(" ")[0]))
     if transient and got != "retried":
-        p.violation("UdpStack.%s|transient->%s" % (op, got), "errno=%s%s%s" % (name, " console=profuse" if loud else "", " payload=non-utf8" if binary else ""),
+        p.violation("UdpStack.%s|transient->%s" % (op, got), "errno=%s%s%s%s" % (name, " console=profuse" if loud else "", " payload=non-utf8" if binary else "",
+                                        "" if (entry, layout) == ("all", "AA") else " entry=%s queue=%s"
+                                        % ("serviceTxPkts" if entry == "all" else "serviceTxPktsOnce", layout)),
                     "UdpStack over SocketUdpNb: %s raising %s (transient destination error) must be retryable, observed '%s'"
                     % (op, name, got),
-                    dict(case=["udp", op, e, loud, binary], console_profuse=loud, payload_not_utf8=binary,
+                    dict(case=["udp", op, e, loud, binary, entry, layout], console_profuse=loud, payload_not_utf8=binary,
+                         service_method="serviceTxPkts" if entry == "all" else "serviceTxPktsOnce", destinations=layout,
                          stack="UdpStack", socket_op=op, errno=name, observed=got, raised=repr(raised),
                          how="UdpStack(ha=...) over a datagram double; make the next %s() raise the errno; call "
                              "serviceTxPkts()/serviceReceives() twice" % op))
@@ -427,7 +440,7 @@ def run_case(c, p):
     elif c[0] == "handshake":
         handshake_case(c[1], tuple(c[2]), p)
     else:
-        udp_case(c[1], c[2], p, *c[3:5])
+        udp_case(c[1], c[2], p, *c[3:7])
 
 
 def cases():
@@ -465,6 +478,12 @@ def cases():
             for entry in entries:
                 for f in faults(tls):
                     out.append(("stream", kind, op, entry, f, False, True))
+    # datagram send: both service entry points x queues of 2-3 packets to the same / different destinations
+    for entry in ("all", "once"):
+        for layout in UDP_LAYOUTS:
+            if (entry, layout) != ("all", "AA"):
+                for e in net.ALL_ERRNOS:
+                    out.append(("udp", "sendto", e, False, False, entry, layout))
     for op in ("sendto", "recvfrom"):
         for loud, binary in ((True, False), (False, True), (True, True)):
             for e in net.ALL_ERRNOS:
